@@ -10,6 +10,7 @@ from typing import (
     ClassVar,
     Dict,
     List,
+    Literal,
     Optional,
     Set,
     Tuple,
@@ -282,6 +283,19 @@ else:
                 current_path,
                 "union_mismatch",
             )
+
+        # Literal[...]: the value must be one of the listed constants
+        if origin is Literal:
+            if not any(
+                value == allowed and type(value) is type(allowed)
+                for allowed in get_args(expected)
+            ):
+                raise ValidationError(
+                    f"value is not one of {get_args(expected)!r}",
+                    current_path,
+                    "literal_error",
+                )
+            return value
 
         # Simple type validation
         if origin is None:
